@@ -72,6 +72,9 @@ def make_site(net, reqs):
                 return m
             if o[0] == "cre":
                 raise getattr(error, o[1])(marker(i))
+            if o[0] == "cre-shared":
+                # one error *instance* raised by several requests (a stored exception, a shared future that failed)
+                raise shared_errors.setdefault(o[1], getattr(error, o[1])("shared-" + o[1]))
             if o[0] == "custom":
                 raise CustomRenderable(o[1], i)
             if o[0] == "exc":
@@ -86,6 +89,7 @@ def make_site(net, reqs):
 
         render_get = render_post = render_put = render_delete = render_fetch = render_patch = render_ipatch = _go
 
+    shared_errors = {}
     site = resource.Site()
     for i, rq in enumerate(reqs):
         if rq["target"] == "resource":
@@ -112,6 +116,8 @@ def expected(rq, i):
         return (69 if method in (1, 5) else 66 if method == 4 else 68, b"body-%d" % i, False)
     if o[0] == "cre":
         return (CRE_CODES[o[1]], marker(i).encode(), False)
+    if o[0] == "cre-shared":
+        return (CRE_CODES[o[1]], ("shared-" + o[1]).encode(), False)
     if o[0] == "custom":
         if o[1] == "ok":
             return (131, b"custom-%d" % i, False)
@@ -180,7 +186,7 @@ def run_case(case, want_trace=False):
             labels.add("exp-%s" % R.code_str(code))
             if rq["target"] == "resource":
                 labels.add("outcome-" + rq["outcome"][0] + ("-slow" if rq.get("delay") else ""))
-                if rq["outcome"][0] in ("exc", "ret", "custom", "msg-bad") or rq["outcome"][0] == "cre":
+                if rq["outcome"][0] in ("exc", "ret", "custom", "msg-bad", "cre-shared") or rq["outcome"][0] == "cre":
                     failing = True
             else:
                 labels.add(rq["target"])
@@ -192,6 +198,11 @@ def run_case(case, want_trace=False):
                 vio.append(V("C09/several-responses", "request %d %r got %d: %s" % (i, rq, len(resp), [R.describe(r) for r in resp])))
                 continue
             f = resp[0]
+            # a response a client can actually match: an ACK only in reply to this CON request, under its message ID
+            if f["type"] == R.ACK and not (rq["con"] and f["mid"] == 0x5000 + i):
+                vio.append(V("C09/response-in-unrelated-ack", "request %d %r answered by %s" % (i, rq, R.describe(f))))
+            elif f["type"] == R.RST:
+                vio.append(V("C09/response-in-rst", "request %d %r answered by %s" % (i, rq, R.describe(f))))
             if f["code"] != code:
                 vio.append(V("C09/wrong-code/%s-for-%s" % (R.code_str(f["code"]), rq["outcome"][0] if rq["target"] == "resource" else rq["target"]), "request %d %r: got %s expected %s" % (i, rq, R.code_str(f["code"]), R.code_str(code))))
             elif payload is not None and f["payload"] != payload:
@@ -230,6 +241,8 @@ _outcome = st.one_of(
     st.tuples(st.just("exc"), st.sampled_from(EXCS)).map(list),
     st.tuples(st.just("ret"), st.sampled_from(["none", "str", "int", "bytes", "tuple"])).map(list),
     st.tuples(st.just("msg-bad"), st.sampled_from(["strpayload", "negmaxage"])).map(list),
+    st.tuples(st.just("cre-shared"), st.sampled_from(["NotFound", "BadRequest"])).map(list),
+    st.tuples(st.just("cre-shared"), st.sampled_from(["NotFound", "BadRequest"])).map(list),
 )
 
 
